@@ -380,6 +380,7 @@ impl FixedMethod {
                         B_OI_KAR => self.buffer.push(B_OI),
                         B_O_KAR => self.buffer.push(B_O),
                         B_OU_KAR => self.buffer.push(B_OU),
+                        B_VOCALIC_RR => self.buffer.push(B_SANSKRIT_RR),
                         _ => (),
                     }
                 } else if config.get_fixed_automatic_chandra() && rmc == B_CHANDRA {
